@@ -355,3 +355,47 @@ where
     forget(ws);
     forget(env);
 }
+
+/// Two inserts in a given index order into a FRESH storage (values symbolic), then every
+/// observable. Small on purpose (seconds): the generic `map_step` covers the same situations from
+/// an arbitrary content, but a change that makes vectors grow on every insert (seeded change
+/// C04_b) turns those queries into time-outs, i.e. into an inconclusive answer instead of a
+/// violation; these stay decidable.
+pub fn order_step<T: Kind>(ids: [Index; NI], first: usize, second: usize)
+where
+    T::Storage: Default,
+{
+    let mut masked = MaskedStorage::<T>::new(Default::default());
+    let (ent, es) = all_alive(ids);
+    let env = Env::new(ent);
+    let st = [IdxState { g: 1, raised: false }; NI];
+    let (a, b) = (nd::u8(), nd::u8());
+    let mut m: Model = [None; NI];
+    {
+        let mut s: St<'_, T> = Storage::new(env.fetch(), &mut masked);
+        let r = s.insert(es[first], T::mk(a));
+        assert!(matches!(&r, Ok(None)), "C04: insert into an empty storage returned a previous value or was refused");
+        forget(r);
+        m[first] = Some(T::norm(a));
+        check_state(&s, &m, ids, &st);
+        let r = s.insert(es[second], T::mk(b));
+        assert!(matches!(&r, Ok(None)), "C04: insert for an entity without a component returned a previous value or was refused");
+        forget(r);
+        m[second] = Some(T::norm(b));
+        check_state(&s, &m, ids, &st);
+        // overwrite the first one, remove the second one
+        let c = nd::u8();
+        let r = s.insert(es[first], T::mk(c));
+        assert!(matches!(&r, Ok(Some(old)) if old.val() == T::norm(a)), "C04: overwrite returned the wrong previous value");
+        forget(r);
+        m[first] = Some(T::norm(c));
+        let r = s.remove(es[second]);
+        assert!(r.as_ref().map(|x| x.val()) == Some(T::norm(b)), "C04: remove returned the wrong value");
+        forget(r);
+        m[second] = None;
+        check_state(&s, &m, ids, &st);
+    }
+    witness!(true, "order: end reached");
+    forget(masked);
+    forget(env);
+}
